@@ -238,7 +238,14 @@ impl Move {
 
             if let Some(piece) = game.get_position(start) {
                 // This move is either en passant or normal
+                let (en_passant_start_row, en_passant_end_row) = match piece.owner {
+                    Player::White => (4, 5),
+                    Player::Black => (3, 2),
+                };
                 return if piece.piece_type == PieceType::Pawn
+                    && piece.owner == game.current_player
+                    && start.row() == en_passant_start_row
+                    && end.row() == en_passant_end_row
                     && game.get_position(end).is_none()
                     && i8::abs(start.col() - end.col()) == 1
                 {
